@@ -11,7 +11,7 @@ import (
 
 // the functions translated in write-back mode
 var writeBackFuncs = map[string]bool{"updateValuesForKeyPath": true, "updateValue": true, "updateValueForKey": true, "Map.UpdateValuesForPath": true,
-	"prevValueByPath": true, "remove": true, "renameKey": true, "Map.Remove": true, "Map.RenameKey": true, "parentPath": true}
+	"prevValueByPath": true, "remove": true, "renameKey": true, "Map.Remove": true, "Map.RenameKey": true, "parentPath": true, "Map.SetValueForPath": true}
 
 type aliasOrigin struct {
 	parent *lvar
